@@ -740,7 +740,8 @@ mutual
         match rc.modifiedCtx with
         | some c =>
           let r ← evaluate2 c pa
-          pure ⟨some pa.raw, .derived r.asJson⟩
+          -- the value is cloned out of the replaced context; a path that designates nothing stays missing
+          pure ⟨some pa.raw, if r.isMissing then .missing else .derived r.asJson⟩
         | none =>
           let r ← evaluate2 root pa
           pure ⟨some pa.raw, r⟩
